@@ -5,6 +5,7 @@ from vlib.term import z, to_coq
 
 ID = 'C15'
 PROP_FILE = 'Props/C15.v'
+EXTRA_PROP_FILES = ['Props/C15Src.v']     # K1 source tie (tools/props/src_translate.py), see docs/reports/SRC.md
 EVAL_FILES = ['Oracle/C15Oracle.v']
 CRATES = ['c15']
 MODES = ['debug', 'release']
